@@ -3,6 +3,8 @@
 pub open spec fn files_ok(files: Seq<ZipFileData>) -> bool {
     forall|i: int| 0 <= i < files.len() ==> (#[trigger] files[i]).last_modified_time.year >= 1980
 }
+// where the local header of an entry (without user extra data) ends
+pub open spec fn lfh_end(f: ZipFileData) -> int { f.header_start + 30 + utf8(f.file_name@).len() + (if f.large_file { 20int } else { 0int }) }
 pub open spec fn zw_faulted<W: Write + io::Seek>(w: &ZipWriter<W>) -> bool {
     gzw_plain(w.inner) && gzw_plain_sink(w.inner).g_fault()
 }
@@ -22,6 +24,9 @@ pub open spec fn zw_wf<W: Write + io::Seek>(w: &ZipWriter<W>) -> bool {
     &&& (w.writing_to_central_extra_field_only ==> w.writing_to_extra_field)
     &&& (!(w.inner is Closed) ==> maybe_ok(gzw_sink(w.inner)))
     &&& (w.inner matches GenericZipWriter::Storer(MaybeEncrypted::Encrypted(_)) ==> w.files@.len() > 0)
+    // an encrypted (stored) entry buffers its data; the sink below is parked right behind the entry's local header
+    &&& (w.inner matches GenericZipWriter::Storer(MaybeEncrypted::Encrypted(z)) ==> (!z.writer.g_fault() ==>
+            z.writer.g_pos() == w.stats.start && lfh_end(w.files@.last()) <= w.stats.start))
 }
 // Only relevant after a device fault inside end_extra_data: the recorded data start still has room for one more
 // extra field.  Without a fault it follows from zw_wf (data start == sink position <= 2^63).  After such a fault
